@@ -68,3 +68,8 @@ def run(ctx):
     JP.j11_pack_builders_carry_everything(ctx)
     ctx.floor("J11", 6)
     S.t6b_flat_keys_are_elements(ctx)
+    # both databases are handed the same (start, ends, rule) triples (round 10)
+    PV.a3_recording_sites(ctx)
+    ctx.floor("A3", 7)
+    S.w6_linked_pack_is_the_searchers(ctx)
+    ctx.floor("W6", 1)
